@@ -4,7 +4,7 @@
 From Coq Require Import List NArith ZArith Bool.
 Import ListNotations.
 Require Import Verif.Lib.Wire Verif.Gen.Facts_C03 Verif.Model.C03 Verif.Proofs.C03 Verif.Gen.Facts_C14 Verif.Model.C14
-               Verif.Proofs.C14 Verif.Proofs.C14_b Verif.Proofs.C14_c Verif.Proofs.C03_ov.
+               Verif.Proofs.C14 Verif.Proofs.C14_b Verif.Proofs.C14_c Verif.Proofs.C14_d Verif.Proofs.C03_ov Verif.Proofs.C03_med.
 
 (* the regenerated constants of the anchored code (hidden attribute names, what is assigned inside and after
    the with-block, request_iface.combined, the classes caught by the tween / _error_handler /
@@ -255,3 +255,53 @@ Theorem C14_judge_accepts_model_refuted :
   /\ spec_winners exc_classifier_id rf_regs (exc_request spec_params rf_W rf_ri 0%N) = [].
 Proof. exact judge_accepts_model_refuted. Qed.
 Print Assumptions C14_judge_accepts_model_refuted.
+
+(* View bodies that raise PredicateMismatch: for _call_view / MultiView.__call__ that is a predicate mismatch and the
+   search goes on after the body ran (Model/C14.v [comps_loop], the pipeline the correspondence run executes;
+   Example Proofs/C14_d.v [search_goes_on]).  When no body outcome is a PredicateMismatch it is the plain pipeline: *)
+Theorem C14_run_request_pm_eq : forall P W, no_pm P W -> forall ri, run_request_pm P W ri = run_request P W ri.
+Proof. exact run_request_pm_eq. Qed.
+Print Assumptions C14_run_request_pm_eq.
+
+Theorem C14_no_pm_from_tables : forall P W,
+  (forall tag e, b_act (body_of (w_bodies W) tag) = ARaise e -> isa W cn_PredicateMismatch e = false) ->
+  (forall site, isa W cn_PredicateMismatch (fresh_ve site) = false
+                /\ isa W cn_PredicateMismatch (fresh_forb site) = false) ->
+  isa W cn_PredicateMismatch id_h_forb = false ->
+  no_pm P W.
+Proof. exact no_pm_from_tables. Qed.
+Print Assumptions C14_no_pm_from_tables.
+
+(* ... so the judge theorem holds for the executed pipeline whenever no body raises PredicateMismatch; with such
+   bodies the judge is silent about what follows the winner's body (an HTTPNotFound raised by a view is
+   indistinguishable from "no view applies"), and the model/implementation correspondence covers them *)
+Theorem C14_judge_accepts_model_pm_partial : forall b regs W ri,
+  no_pm (spec_params_b b) W ->
+  b = true \/ sec_of (ri_under ri) = true ->
+  (forall e, spec_ok exc_classifier_id regs (exc_request (spec_params_b b) W ri e)
+               (call_view (w_reg W) exc_classifier_id (exc_request (spec_params_b b) W ri e)) = true) ->
+  isa W cn_Exception ctx_resource = false ->
+  (forall site, In site [site_under; site_tween] ->
+     isa W cn_HTTPNotFound (fresh_nf site) = true /\ isa W cn_HTTPNotFound (fresh_pme site) = true
+     /\ isa W cn_Exception (fresh_pme site) = true
+     /\ isa W cn_HTTPForbidden (fresh_forb site) = true /\ isa W cn_Exception (fresh_forb site) = true
+     /\ isa W cn_HTTPNotFound (fresh_forb site) = false) ->
+  judge regs W ri (run_request_pm (spec_params_b b) W ri) = true.
+Proof. exact judge_accepts_model_pm. Qed.
+Print Assumptions C14_judge_accepts_model_pm_partial.
+
+(* excview_nearest_class with accept= allowed (C03_lookup_winner_media at the exception classifier): the view that
+   renders is a qualifying registration before which no qualifying registration comes in the accept-aware order;
+   Not Found iff none qualifies.  (Distinct keys; the generator of this check does not produce accept= on
+   exception views -- C03's does on ordinary views.) *)
+Theorem C14_excview_nearest_class_media : forall ao regs P W ri e,
+  NoDup (map key regs) -> Forall accept_wf regs ->
+  NoDup (q_req_sro (exc_request P W ri e)) -> NoDup (x_sro (find_exc (w_excs W) e)) ->
+  match call_view (register_all ao regs) exc_classifier_id (exc_request P W ri e) with
+  | Ran t => exists x, In x regs /\ r_tag x = t /\ candidate exc_classifier_id (exc_request P W ri e) x = true
+                       /\ forall w, In w regs -> candidate exc_classifier_id (exc_request P W ri e) w = true ->
+                                     strictly_before (exc_request P W ri e) w x = false
+  | _ => forall w, In w regs -> candidate exc_classifier_id (exc_request P W ri e) w = false
+  end.
+Proof. exact excview_nearest_class_media. Qed.
+Print Assumptions C14_excview_nearest_class_media.
